@@ -157,6 +157,49 @@ Proof.
     rewrite dest_deliver by exact Hat; reflexivity.
 Qed.
 
+(* the general form, encryption included: an accepted local job whose output can be created, whose key step succeeds with the string
+   action [enc], whose input channel - looked at AFTER the output file and the key file have been written - delivers [data] and ends
+   normally, and whose writes are accepted: status 0 and exactly [stream enc data] at the destination *)
+Theorem job_local_output_gen : forall a w m fs1 fs2 enc data bar,
+  decide (flags_of a w) = CAccept m -> m <> MAtlas ->
+  stage_out a w = Some fs1 -> stage_key a w fs1 = Some (fs2, enc) ->
+  (nonempty_s (a_out a) = true -> a_encrypt a && nonempty_s (a_keyfile a) = true -> a_keyfile a <> a_out a) ->
+  local_input a w m fs2 = Some (data, REof, bar) ->
+  (forall i, w_writer w i = Accept) -> snd (scan data REof) = SOk ->
+  j_status (job tb cs a w) = Exit0 /\ dest a (job tb cs a w) = stream tb cs (a_cfg a) enc data.
+Proof.
+  intros a w m fs1 fs2 enc data bar Hd Hm E1 E2 Hko Hin Hw Hs. unfold job. rewrite Hd, E1, E2. unfold stage_run.
+  assert (Erun : run_io tb cs (a_cfg a) enc data REof (w_writer w) bar = (ROk, stream tb cs (a_cfg a) enc data))
+    by (apply run_io_faultfree; assumption).
+  assert (Hat : nonempty_s (a_out a) = true -> exists mm, fs2 (a_out a) = FFile [] mm).
+  { intros Ho. unfold stage_out in E1. rewrite Ho in E1. destruct (create_at _ _ _ E1) as [mm Hmm].
+    exists mm. unfold stage_key in E2. destruct (a_encrypt a && nonempty_s (a_keyfile a)) eqn:Ek.
+    - destruct (run_key _ _) as [k' [key|]]; inversion E2; subst. rewrite upd_other; [exact Hmm|]. intros E. symmetry in E. exact (Hko Ho eq_refl E).
+    - inversion E2; subst. exact Hmm. }
+  destruct m; [congruence| |]; rewrite Hin, Erun; (split; [unfold deliver; destruct (nonempty_s (a_out a)); reflexivity|]);
+    rewrite dest_deliver by exact Hat; reflexivity.
+Qed.
+
+(* encryption is a function of the key FILE: two accepted encrypting jobs, possibly in different runs, processes and directories, whose key
+   files hold the same valid key and whose channels deliver the same data under the same configuration leave the same bytes *)
+Theorem job_encrypt_deterministic : forall a1 w1 m1 a2 w2 m2 f1 f2 g1 g2 c1 mo1 c2 mo2 key data b1 b2,
+  decide (flags_of a1 w1) = CAccept m1 -> m1 <> MAtlas -> decide (flags_of a2 w2) = CAccept m2 -> m2 <> MAtlas ->
+  stage_out a1 w1 = Some f1 -> stage_out a2 w2 = Some f2 ->
+  a_encrypt a1 = true -> a_encrypt a2 = true -> nonempty_s (a_keyfile a1) = true -> nonempty_s (a_keyfile a2) = true ->
+  f1 (a_keyfile a1) = FFile c1 mo1 -> f2 (a_keyfile a2) = FFile c2 mo2 -> read_key c1 = Some key -> read_key c2 = Some key ->
+  a_keyfile a1 <> a_out a1 -> a_keyfile a2 <> a_out a2 ->
+  stage_key a1 w1 f1 = Some (g1, Some (w_encrypt w1 key)) -> stage_key a2 w2 f2 = Some (g2, Some (w_encrypt w2 key)) ->
+  w_encrypt w1 key = w_encrypt w2 key -> a_cfg a1 = a_cfg a2 ->
+  local_input a1 w1 m1 g1 = Some (data, REof, b1) -> local_input a2 w2 m2 g2 = Some (data, REof, b2) ->
+  (forall i, w_writer w1 i = Accept) -> (forall i, w_writer w2 i = Accept) -> snd (scan data REof) = SOk ->
+  dest a1 (job tb cs a1 w1) = dest a2 (job tb cs a2 w2).
+Proof.
+  intros a1 w1 m1 a2 w2 m2 f1 f2 g1 g2 c1 mo1 c2 mo2 key data b1 b2 Hd1 Hm1 Hd2 Hm2 O1 O2 E1 E2 K1 K2 F1 F2 R1 R2 N1 N2 S1 S2 He Hc I1 I2 W1 W2 Hs.
+  destruct (job_local_output_gen a1 w1 m1 f1 g1 _ data b1 Hd1 Hm1 O1 S1 (fun _ _ => N1) I1 W1 Hs) as [_ D1].
+  destruct (job_local_output_gen a2 w2 m2 f2 g2 _ data b2 Hd2 Hm2 O2 S2 (fun _ _ => N2) I2 W2 Hs) as [_ D2].
+  rewrite D1, D2, He, Hc. reflexivity.
+Qed.
+
 (* the same bytes whichever channel delivers the data and wherever the output goes: two plain local jobs with the
    same redaction configuration whose input channels deliver the same data leave the same bytes at their destinations *)
 Theorem job_channel_independent : forall a1 w1 m1 a2 w2 m2 data bar1 bar2,
